@@ -3,6 +3,7 @@
 # every confirmed adversarial change under seeded/ must be reported by the check of its property.  Applies each patch to
 # /repo, runs the checks, and undoes it straight afterwards.  (Maintenance / thorough-tier tool; never part of a verdict.)
 cd /verif
+export VERIF_SCRATCH=1   # evidence of runs against a modified /repo goes to .cache/scratch-evidence
 ALL="C01 C02 C03 C04 C05 C06 C07 C08 C09 C10 C11 C12 C13 C14 C15 C16 C17 C19"
 fa=0; miss=0; nb=0; ns=0; skipped=0
 if [ "${1:-all}" != "seeded" ]; then
